@@ -202,7 +202,8 @@ class _TransposeFusedMatMulBaseWithBatch(orp.RewriteRuleClassBase):
         trans_batch_property = "transBatchA" if self._pos == 1 else "transBatchB"
         trans_batch = fused_node.attributes.get_int(trans_batch_property, 0)
         transposed_node = _get_node(transposed, "Transpose")
-        perm = list(transposed_node.attributes["perm"].as_ints())
+        # A Transpose without a perm attribute reverses all axes: never one of the perms below.
+        perm = list(transposed_node.attributes.get_ints("perm") or [])
         if len(perm) < 3:
             # transBatchA/transBatchB require operands of rank >= 3
             return check_result.fail("Permutation values for Transpose are not correct.")
